@@ -16,6 +16,8 @@
  C17.distance   for the Mod 97-10 formats whose input is rearranged (IBAN, ISO 11649) the expanded
                 length stays below the multiplicative order of 10 modulo 97, so that the pair split
                 by the rearrangement is still detected.
+ C17.exempt     a documented class of numbers that validate() takes out of the generic algorithm (fr.siret: establishments of
+                La Poste) stays delimited by exactly the documented prefix, whether written in place or as a module constant.
  C17.discard    characters that compact()/validate() cut off before the check (a prefix recognised with
                 startswith / a slice comparison / membership in a tuple, then `number[k:]`) are seen by
                 no check; that is harmless for one fixed prefix (a mistyped prefix is not recognised and
@@ -26,7 +28,7 @@ import ast
 import math
 import os
 
-from ..common import Report, rel
+from ..common import Report, rel, src
 from .. import scope
 
 NAMED = ['stdnum.isbn', 'stdnum.ean', 'stdnum.issn', 'stdnum.ismn', 'stdnum.imei', 'stdnum.isni', 'stdnum.iban', 'stdnum.lei', 'stdnum.iso11649', 'stdnum.grid']
@@ -45,10 +47,20 @@ UNCHECKED_PATHS = {
     'stdnum.do.cedula': 'whitelist of issued cedulas whose check digit is known to be wrong: accepted as they are',
     'stdnum.id.npwp': 'the 16-digit form that is a NIK (national identity number) carries no Luhn digit',
 }
+# classes of numbers that a validate() takes out of the generic algorithm on purpose, confirmed by reading the module documentation:
+# module -> (prefix that delimits the class, reason).  The class must stay exactly this one: a shorter or different prefix puts other
+# numbers under the weaker rule.
+EXEMPT_PREFIX = {
+    'stdnum.fr.siret': ('356000000', 'establishments of La Poste (SIREN 356000000) use the digit sum modulo 5 instead of Luhn'),
+}
 COVERAGE_UNDECIDED = {
     'stdnum.nl.btw': 'alternative acceptance: either the BSN check or Mod 97-10 over the whole number; coverage is per alternative',
     'stdnum.isan': scope._REBUILD, 'stdnum.meid': scope._REBUILD, 'stdnum.gs1_128': scope._REBUILD,
 }
+
+
+def file_of(prog, mn):
+    return rel(prog.mods[mn].path)
 
 
 def _consts(node):
@@ -183,6 +195,47 @@ def check(tier):
             rep.check(not fl, 'C17.delegate', file, 'validate', 'uses %s' % a.replace('stdnum.', ''), 0,
                       'the algorithm %s does not give its guarantees: %s' % (a, fl[0].detail[:120] if fl else ''),
                       what='%s relies on %s (substitution%s)' % (mn.replace('stdnum.', ''), a.replace('stdnum.', ''), ' + transposition' if a in TRANS_ALGS else ''))
+    # ---- documented exemptions keep their extent
+    for mn, (want, why) in sorted(EXEMPT_PREFIX.items()):
+        m_ = prog.mods.get(mn)
+        f = m_.funcs.get('validate') if m_ else None
+        if f is None:
+            rep.error('%s.validate vanished (exemption %s)' % (mn, want))
+            continue
+        consts = {st.targets[0].id: st.value.value for st in m_.tree.body if isinstance(st, ast.Assign) and len(st.targets) == 1
+                  and isinstance(st.targets[0], ast.Name) and isinstance(st.value, ast.Constant) and isinstance(st.value.value, str)}
+
+        def strval(e):
+            if isinstance(e, ast.Constant) and isinstance(e.value, str):
+                return [e.value]
+            if isinstance(e, ast.Name) and e.id in consts:
+                return [consts[e.id]]
+            if isinstance(e, (ast.Tuple, ast.List, ast.Set)):
+                return [v for x in e.elts for v in (strval(x) or [None])]
+            return None
+        found = []
+        for n in ast.walk(f):
+            if not isinstance(n, ast.If):
+                continue
+            # a branch that decides between the algorithm and something else
+            calls = {src(c.func) for b in n.body + n.orelse for c in ast.walk(b) if isinstance(c, ast.Call)}
+            if not any(c.split('.')[0] in ('luhn', 'verhoeff', 'damm', 'mod_11_10', 'mod_11_2', 'mod_37_2', 'mod_37_36', 'mod_97_10') for c in calls):
+                continue
+            for t in ast.walk(n.test):
+                if isinstance(t, ast.Call) and isinstance(t.func, ast.Attribute) and t.func.attr == 'startswith' and t.args:
+                    found.append((n, strval(t.args[0])))
+                elif isinstance(t, ast.Compare) and len(t.ops) == 1 and isinstance(t.ops[0], (ast.Eq, ast.In, ast.NotEq, ast.NotIn)) \
+                        and isinstance(t.left, ast.Subscript) and isinstance(t.left.slice, ast.Slice) and t.left.slice.lower is None:
+                    found.append((n, strval(t.comparators[0])))
+        if not found:
+            rep.fail('C17.exempt', file_of(prog, mn), 'validate', 'exemption %s' % want, f.lineno,
+                     '%s.validate() no longer delimits the documented exemption (%s) by a prefix test in front of the check algorithm' % (mn.replace('stdnum.', ''), why))
+            continue
+        for n, vals in found:
+            rep.check(vals == [want], 'C17.exempt', file_of(prog, mn), 'validate', 'if %s' % src(n.test), n.lineno,
+                      '%s.validate() takes the numbers that start with %s out of the check digit algorithm; the documented exemption is the prefix %r (%s): '
+                      'every other number under the weaker rule loses the protection against single typing errors'
+                      % (mn.replace('stdnum.', ''), vals, want, why), what='%s: exemption delimited by %r' % (mn.replace('stdnum.', ''), want))
     # ---- characters cut off before the check
     for mn in inscope:
         file = rel(prog.mods[mn].path)
